@@ -200,6 +200,24 @@ fn strip_ws(t: &str) -> String {
 
 pub fn exec(rest: &str, out: &mut Out) -> (String, bool) {
     let a: Vec<&str> = rest.split(' ').collect();
+    if a.len() == 3 {
+        // `print <opts> <value> <k>`: the public `Print::fmt_with` entered at indentation depth k (what
+        // a user type embedding a Value, or Meta / Stripped / &T, does)
+        let (o, v, k) = match (parse_print_opts(a[0]), parse_value(a[1]), a[2].parse::<usize>()) { (Some(o), Some(v), Ok(k)) if k <= 64 => (o, v, k), _ => return ("bad-op".into(), false) };
+        struct At<'a, T: Print>(&'a T, &'a Options, usize);
+        impl<'a, T: Print> std::fmt::Display for At<'a, T> { fn fmt(&self, f: &mut std::fmt::Formatter) -> std::fmt::Result { self.0.fmt_with(f, self.1, self.2) } }
+        let text = At(&v, &o, k).to_string();
+        let at0 = v.print_with(o.clone()).to_string();
+        // C13: nested containers are indented by depth times the unit — entering at depth k shifts every
+        // line after the first by k units and changes nothing else
+        let shifted = at0.replace('\n', &format!("\n{}", o.indent.by(k)));
+        out.oracle(text == shifted, "fmt_with at depth k = the depth-0 text with every line after the first shifted by k indent units", || format!("{:?} vs {:?}", text, shifted));
+        let by_ref = At(&&v, &o, k).to_string();
+        let meta = At(&locspan::Meta(v.clone(), ()), &o, k).to_string();
+        out.oracle(by_ref == text && meta == text, "Print for &T and Meta<T, M> forward the depth", || format!("{:?} {:?}", by_ref, meta));
+        out.count("fmt_with_at_depth");
+        return (cps(&text), true);
+    }
     if a.len() != 2 {
         return ("bad-op".into(), false);
     }
@@ -400,6 +418,13 @@ pub fn gen(out: &mut Out, thorough: bool, focus: &str) {
         l(format!("print {} {}", o, sv), out);
         if focus == "C08" && i % 8 > 2 { l(format!("print compact {}", sv), out); }
     }
+    // the same printer entered at a non-zero depth (Print::fmt_with), generated values x option records
+    for i in 0..(if thorough { 20000 } else { 600 }) {
+        let v = gen_value(&mut out.rng, 0, 3);
+        let o = match i % 5 { 0 => "pretty".to_string(), 1 => "inline".to_string(), _ => gen_opts(&mut out.rng, &v) };
+        l(format!("print {} {} {}", o, show_value(&v), 1 + (i % 7) * (1 + i % 3)), out);
+    }
+    for v in ["[t,f]", "{k61;[n]}", "[]", "{}", "[[],{}]", "#31;", "s61;"] { for k in [1usize, 2, 5, 33] { for p in ["pretty", "compact", "inline", "s2,1,1,0,0,1,A,1,1,0,0,1,0,1,A", "t1,0,0,1,1,0,A,0,0,1,1,0,1,0,A"] { l(format!("print {} {} {}", p, v, k), out); } } }
     // small exhaustive option grid on a fixed value: every numeric field in 0..3 one at a time,
     // every limit variant with thresholds around the actual widths
     let fixed = "[#31;[]{}{k61;[t]}[#31;#32;]]";
